@@ -134,14 +134,22 @@ def findMount (path : Str) : List Str → Nat → Option (Nat × Str)
   | [], _ => none
   | m :: ms, i => if startsWith path m then some (i, m) else findMount path ms (i + 1)
 
-/-- `MountFS._delegate`: `some i` = the i-th mounted filesystem with the mount-relative path;
-`none` = `self.default_fs` with the **raw** path, exactly as the code returns it. -/
+/-- `MountFS._delegate` after its invalid-character test (`mountDelegateChk`): `some i` = the i-th mounted
+filesystem with the mount-relative path; `none` = `self.default_fs` with the **raw** path, exactly as the code
+returns it. -/
 def mountDelegate (mounts : List Str) (p : Str) : Res (Option Nat × Str) := do
   let n ← normpath p
   let _path := forcedir (abspath n)
   match findMount _path mounts 0 with
   | some (i, m) => pure (some i, rstripSlash (_path.drop m.length))
   | none => pure (none, p)
+
+/-- `MountFS._delegate` **as coded** (since /repo 48e26ed): the MountFS's own `invalid_path_chars`
+(`"\0"`) are refused on the RAW path first (`errors.InvalidCharsInPath`), before `normpath` could remove
+them (`"foo/x\0/../a"` used to reach the filesystem mounted at `foo` as `a`); then `mountDelegate` -/
+def mountDelegateChk (invalid : List Char) (mounts : List Str) (p : Str) : Res (Option Nat × Str) :=
+  if p.any (fun c => invalid.contains c) then .err .InvalidCharsInPath
+  else mountDelegate mounts p
 
 /-! ### ReadTarFS._directory_entries -/
 
